@@ -13,7 +13,9 @@ def walk_types(t, f, in_key=False):
     """calls f(type, in_key) on every type node"""
     f(t, in_key)
     k = t[0]
-    if k == "tag":
+    if k == "paren":
+        walk_types(t[1], f, in_key)
+    elif k == "tag":
         walk_types(t[2], f)
     elif k == "or":
         walk_types(t[1], f, in_key)
@@ -170,7 +172,7 @@ def arrow_nocut_zone(S, g, docvals):
                 continue
             lo, hi, key, cut, val, nm = p
             if is_lit_key(key) and not cut:
-                later_wild = any((member_parts(x) is not None and not is_lit_key(member_parts(x)[2])) for x in ms[i + 1:])
+                later_wild = any((member_parts(x) is not None and (not is_lit_key(member_parts(x)[2]) or member_parts(x)[2] == key)) for x in ms[i + 1:])
                 if later_wild:
                     kv = key[1]
                     for d in docvals:
@@ -186,6 +188,8 @@ def zones(S, v, mode):
     docvals = doc_values(v)
     doc_classes = {num_class(d) for d in docvals} - {None}
     P = "c01" if mode == "json" else "c02"
+    if mode == "json" and any(d[0] == "int" and d[1] >= (1 << 63) for d in docvals):
+        z.add("kf-c01-int-above-i64")
     for t, in_key in types:
         k = t[0]
         if k == "ctl" and t[1] in ("lt", "le", "gt", "ge", "eq", "ne") and t[3][0] == "lit" and t[3][1][0] in ("int", "flt"):
@@ -197,6 +201,8 @@ def zones(S, v, mode):
             else:
                 if (lc in ("U", "I") and "F" in doc_classes) or (lc == "F" and doc_classes & {"U", "I"}):
                     z.add("kf-%s-cmp-numeric-class" % P)
+        if k == "ctl" and t[1] in ("and", "within"):
+            z.add("kf-c09-and-within-not-conjunction")
         if k == "ctl" and t[1] in ("eq", "ne"):
             tgt = t[2]
             if not (tgt[0] == "ref" and tgt[1] in STRING_NUMERIC):
@@ -214,6 +220,14 @@ def zones(S, v, mode):
                     z.add("kf-c02-undefined-is-null")
             if k == "ref" and any(d[0] == "tag" and d[1] not in (0, 1) for d in docvals):
                 z.add("kf-c02-tag-vs-name")
+    if mode == "cbor":
+        dup = any(d[0] == "map" and len({repr(a) for a, _ in d[1]}) < len(d[1]) for d in docvals)
+        if dup:
+            for g in all_map_groups(S):
+                for ms in flat_members(S, g):
+                    ps = [member_parts(m) for m in ms]
+                    if any(p is not None and is_lit_key(p[2]) and p[3] for p in ps) and any(p is not None and not is_lit_key(p[2]) for p in ps):
+                        z.add("kf-c02-duplicate-key-bypasses-cut")
     for g in all_map_groups(S):
         if not map_shape_clean(S, g):
             z.add("kf-%s-map-member-shape" % P)
@@ -225,6 +239,14 @@ def zones(S, v, mode):
 def in_clean_fragment(S, mode):
     """schema-only part of the classifiers: no zone can apply whatever the document (used for generator statistics)"""
     P = "c01" if mode == "json" else "c02"
+    if mode == "cbor":
+        dup = any(d[0] == "map" and len({repr(a) for a, _ in d[1]}) < len(d[1]) for d in docvals)
+        if dup:
+            for g in all_map_groups(S):
+                for ms in flat_members(S, g):
+                    ps = [member_parts(m) for m in ms]
+                    if any(p is not None and is_lit_key(p[2]) and p[3] for p in ps) and any(p is not None and not is_lit_key(p[2]) for p in ps):
+                        z.add("kf-c02-duplicate-key-bypasses-cut")
     for g in all_map_groups(S):
         if not map_shape_clean(S, g):
             return False
